@@ -51,7 +51,7 @@ def compare(case, io, mo, mode):
     why = meta.compare(case, io, mo, mode)
     if why:
         return why
-    if "calls" in io and "ok" in mo and "calls" in mo["ok"] and io["calls"] != mo["ok"]["calls"]:
+    if io.get("calls") is not None and "ok" in mo and "calls" in mo["ok"] and io["calls"] != mo["ok"]["calls"]:
         return f"kernel invocations: impl {io['calls']} model {mo['ok']['calls']}"
     return None
 
@@ -61,7 +61,7 @@ def check_spec(case, io, mode):
         return "did not finish within the watchdog budget (spins)"
     b = meta.base(case["_h"])
     bound = getattr(b, "step_bound", None)
-    if bound and "calls" in io and io["calls"] > bound(case, io):
+    if bound and io.get("calls") is not None and io["calls"] > bound(case, io):
         return f"{io['calls']} kernel invocations exceed the linear bound {bound(case, io)}"
     return None
 
